@@ -287,13 +287,13 @@ func c12Explore(src *choice.Src) *core.Result {
 		}
 		os.Symlink(outside, filepath.Join(target, link))
 		unlistable := target
-		modzip.SimReadDir = func(dir string) ([]os.DirEntry, error) {
+		modzip.SimListing = func(dir string, files []os.DirEntry, err error) ([]os.DirEntry, error) {
 			if dir == unlistable {
 				return nil, &os.PathError{Op: "open", Path: dir, Err: os.ErrPermission}
 			}
-			return os.ReadDir(dir)
+			return files, err
 		}
-		defer func() { modzip.SimReadDir = nil }()
+		defer func() { modzip.SimListing = nil }()
 		res.Faults["target-cannot-be-listed"]++
 	case "empty":
 		os.Mkdir(target, 0o755)
